@@ -430,6 +430,7 @@ def public_case(ctx, rng, tgen, idx):
             v = torch.randn(d, dtype=torch.complex128, generator=tgen)
             v /= v.norm()
             op = opm = torch.outer(v, v.conj())
+            case["complex_operator"] = True
         got = m.get_correlation_matrix(op) if op is not None else m.get_correlation_matrix()
         ref = torch.zeros(n, n, dtype=torch.complex128)
         for i in range(n):
@@ -549,8 +550,38 @@ def public_case(ctx, rng, tgen, idx):
     return case, bad
 
 
+def correlation_witness(ctx, w):
+    """corpus witness: product state, operator = projector on it; every correlation must be 1"""
+    import torch
+    from emu_mps.mps import MPS
+
+    fs = [torch.tensor(t, dtype=torch.float64) for t in w["factors"]]
+    fs = [torch.complex(t[..., 0], t[..., 1]) for t in fs]
+    op = torch.tensor(w["operator"], dtype=torch.float64)
+    op = torch.complex(op[..., 0], op[..., 1])
+    m = MPS(fs, num_gpus_to_use=None, eigenstates=tuple(w["eigenstates"]))
+    psi = dense(m.factors)
+    n = len(fs)
+    got = m.get_correlation_matrix(op)
+    ref = torch.zeros(n, n, dtype=torch.complex128)
+    for i in range(n):
+        for j in range(n):
+            ref[i, j] = (psi.conj() * site_op(site_op(psi, op, i), op, j)).sum().real
+    err = float((got - ref).abs().max())
+    ctx.count_case({"kind": "corpus:correlation", "name": w.get("name")}, True)
+    if err > 1e-9:
+        ctx.violation(f"get_correlation_matrix(operator) returns the correlations of operator^T, not of operator: "
+                      f"|got - <psi|O_i O_j|psi>| = {err:.3e} (Hermitian projector, witness {w.get('name')})",
+                      {"case": w, "got": got.real.tolist(), "expected": ref.real.tolist(),
+                       "finding_key": "correlation-operator-transposed"})
+
+
 def run_public(ctx, n_cases):
     import torch
+
+    for w in corpus_cases():
+        if w.get("kind") == "correlation_witness":
+            correlation_witness(ctx, w)
 
     tgen = torch.Generator().manual_seed(ctx.rng.randrange(2 ** 31))
     hist = {}
@@ -559,31 +590,73 @@ def run_public(ctx, n_cases):
         hist[case["kind"]] = hist.get(case["kind"], 0) + 1
         ctx.count_case(case, True)
         if bad:
-            ctx.violation("; ".join(bad)[:600], {"case": case, "finding_key": case["kind"]})
+            key = case["kind"]
+            if key == "public:correlation" and case.get("complex_operator"):
+                key = "correlation-operator-transposed"   # same defect as the corpus witness
+            ctx.violation("; ".join(bad)[:600], {"case": case, "finding_key": key})
     ctx.extra["public_case_kinds"] = hist
 
 
+def corpus_cases():
+    p = common.VERIF / "corpus" / "C11.json"
+    return json.loads(p.read_text()) if p.exists() else []
+
+
 def run(ctx):
+    import torch
+
+    torch.set_num_threads(1)
     model_rc, model_out = common.coq_make(["Model/MPSAlg.vo"])
     ctx.obligation("build:Model/MPSAlg.vo", model_rc == 0, model_out, kind="build")
     common.standard_proof_stage(ctx, "C11", ["Properties/C11.vo"])
     if model_rc == 0:
         run_exact(ctx, ctx.n(120, 1500))
     run_public(ctx, ctx.n(150, 3000))
-    ctx.rule = ("random Gaussian-integer tensor trains (2-8 sites, bonds 1-6, d in {2,3}, MPO factors flattened), "
-                "entries bounded so every contraction is exact in binary64; a case is non-trivial unless it is a "
-                "malformed-shape case or an empty amplitude dictionary; distinct by input hash")
+    ctx.rule = ("exact stream: random Gaussian-integer tensor trains (2-8 sites, bonds 1-6, d in {2,3}, MPO factors "
+                "flattened), entries bounded so every contraction is exact in binary64, plus malformed shapes; "
+                "falsifier stream: 12 public operations on random complex MPS/MPO (2-8 sites, bonds <= 16, d in {2,3}, "
+                "precision 1e-10..1e-3, all three bases for the constructors); corpus witnesses first; non-trivial unless "
+                "malformed-shape or empty dictionary; distinct by input hash")
+    ctx.trusted_base += ["hand model coq/Model/MPSAlg.v + Model/TransferMat.v (validated by the exact correspondence of this run)",
+                         "torch dense contractions (tensordot / kron / svdvals) as independent reference of the falsifier",
+                         "MPO factors are compared after reshape (l,o,i,r)->(l,o*d+i,r)"]
+    ctx.assumptions += [
+        "theorems are algebraic (any commutative ring with involution); rounding, QR and truncation are outside them and are "
+        "validated against dense linear algebra: |error| <= sqrt(N-1)*precision (+1e-9 relative) after truncating operations",
+        "from_amplitudes (accumulation without truncation/normalisation) is checked on the model only; the real "
+        "_from_state_amplitudes is validated by the dense falsifier",
+        "get_correlation_matrix is checked with Hermitian idempotent operators only (the diagonal is <O_i>, not <O_i O_i>)",
+    ]
+    ctx.notes.append("observation (not a violation of the check): get_correlation_matrix returns <O_i> on the diagonal where the "
+                     "docstring formula says <O_i O_i>; they differ for non-idempotent operators such as sigma_z")
 
 
 def replay(ctx, path):
+    import torch
+
+    torch.set_num_threads(1)
     rp = json.loads(open(path).read())
     print("replay:", rp.get("what"))
+    case = rp.get("case", {})
+    if case.get("kind") == "correlation_witness":
+        correlation_witness(ctx, case)
+        return
+    # random cases are regenerated from the seeded stream: rerun the same tier
     run(ctx)
 
 
 META = {
     "category": "proof",
-    "technique": "Coq proof (transfer-matrix model, any commutative ring) + exact Gaussian-integer correspondence + dense falsifier",
-    "text": "",
-    "note": "",
+    "technique": "Coq proof (transfer-matrix model over any commutative ring with involution) + exact Gaussian-integer correspondence + dense falsifier",
+    "text": ("Proved for every number of sites >= 2, all bond dimensions, every index string, over every commutative ring: "
+             "add_factors represents the sum (MPS amplitudes and MPO elements), scale_factors multiplies every amplitude by c "
+             "whichever site carries it, MPS.inner equals sum_b conj(amp A b)*amp B b. The Gallina model is executed at Z[i] and "
+             "compared exactly with add_factors / scale_factors / MPS.__rmul__ / MPO.__add__ / MPO.__rmul__ / MPS.inner on "
+             "Gaussian-integer tensors (full result tensors and sampled amplitudes), including which shape errors raise. "
+             "Validated only (dense linear algebra, stated tolerances): truncation after + / apply_to / @, norm, overlap, "
+             "expect, expect_batch, get_correlation_matrix, apply, entanglement_entropy, from_state_amplitudes, "
+             "from_operator_repr, and operand invariance of every non-in-place operation. Not proved: zip_contract, "
+             "expect_spec, from_amplitudes_spec, from_operator_repr_spec."),
+    "note": ("Trusted: Coq kernel+VM, the hand model (tied by the exact correspondence on every run), torch dense references. "
+             "Theorems are exact-arithmetic statements; floating-point effects are covered only by the tolerance-based falsifier."),
 }
